@@ -78,3 +78,9 @@ def f34_fg_duplicate_factors(v, f):
 def f07_string_factor_nodes(v, f):
     """MarkovNetwork.to_factor_graph names factor nodes 'phi_<scope>' (strings): the target's check_model rejects them"""
     return "Factors not associated for all the random variables" in str(v.get("observed"))
+
+
+@predicate
+def f12c_bds(v, f):
+    """BDs local score equals the recorded wrong formula (only possible when some parent configuration is unobserved)"""
+    return bool((v.get("detail") or {}).get("f12c_model_match"))
